@@ -79,6 +79,9 @@ pub struct C16;
 
 impl Property for C16 {
     type Case = HistCase;
+    fn freeze(&self, case: &HistCase) -> HistCase {
+        crate::props::hist::freeze_hist(case)
+    }
     fn id(&self) -> &'static str {
         "C16"
     }
@@ -166,6 +169,9 @@ fn tet_of(t: &polyplets::SecurityTetraplet) -> Tet {
 
 impl Property for C17 {
     type Case = HistCase;
+    fn freeze(&self, case: &HistCase) -> HistCase {
+        crate::props::hist::freeze_hist(case)
+    }
     fn id(&self) -> &'static str {
         "C17"
     }
